@@ -1573,6 +1573,7 @@ func main() {
 	mon.Floor("witness", len(witnesses))
 	// sub cli: goalign dedup / goalign compress
 	mon.Floor("cli:runs", 200)
+	mon.Floor("long-alignments", 4)
 	mon.Floor("cli:outcome:ok", 250)
 	mon.Floor("cli:dedup", 150)
 	mon.Floor("cli:compress", 80)
@@ -1606,6 +1607,7 @@ func main() {
 		{Name: "chain", Quick: 40000, Thorough: 1000000, Run: runChain},
 		{Name: "exh-dedup", Quick: exhDedupCount / 2, Thorough: exhDedupCount, Run: runExhDedup},
 		{Name: "exh-compress", Quick: exhCompressCount(false), Thorough: exhCompressCount(true), Run: runExhCompress},
+		{Name: "long", Quick: 4, Thorough: 16, Run: runLong},
 		{Name: "cli", Quick: 330, Thorough: 3000, Serial: true, Run: runCli},
 	})
 }
